@@ -43,7 +43,7 @@ CHECKS = {
  "C11": dict(engine="E1", category="model_checking", design_ref="§3.1, §4 C11",
    technique="stateless model checking of the implementation: controlled cooperative scheduler + delay-bounded exhaustive schedule enumeration (iterative deviation bounding) over the AST-instrumented real code, with a vector-clock happens-before race monitor",
    text="The real IndividualNodes.Compare pipeline (four goroutine stages, three worker pools, polling select, two sync.Map sent-sets, a mutex-protected counter) is rewritten by tools/vinstr at check time and run under engine/vsched on 14 tiny colliding input pairs x Jobs {0,1,2,3,(8,16)} x thresholds {0,default,1} x channel capacity {real,1} x sync.Map range order x three base schedulers; every schedule with at most d deviations (quick: d=2 on the main configuration, d=1 on the option grid; thorough: one more) runs to completion and is judged for termination (deadlock/livelock), valid one-to-one matching, justified pairs, equality with the sequential result when tie-free, and data races (happens-before monitor over instrumented field/variable/map accesses).",
-   note="Scheduling points are the hooked synchronisation operations; races are reported rather than explored. nodeCache/pointerCache are quiet maps with run-time-checked side conditions (full_maps configurations make them points). Replay determinism is asserted per configuration. GOMAXPROCS is not a dimension (the scheduler produces every interleaving of hooked operations). The CLI 'gedcom diff' hand-off is not yet driven."),
+   note="Scheduling points are the hooked synchronisation operations; races are reported rather than explored. nodeCache/pointerCache are quiet maps with run-time-checked side conditions (full_maps configurations make them points). Replay determinism is asserted per configuration. GOMAXPROCS is not a dimension (the scheduler produces every interleaving of hooked operations). The 'gedcom diff' command line is driven on the real binary (flag plumbing and result), not under the scheduler; its goroutine hand-off is exercised by C14 on the real binary."),
  "C12": dict(engine="E3", category="exploration", design_ref="§4 C12",
    technique="bounded-exhaustive enumeration of all operand pairs over small string alphabets, a date window, a finite individual universe x option grid, small lists and family graphs, against range/symmetry/identity/monotonicity laws",
    text="All ordered pairs: strings over {a,b} up to length 8/10 and {a,b,c} up to 5/6 (JaroWinkler x prefix sizes x boost thresholds), names with case/punctuation/multi-byte letters (StringSimilarity), ~420 DATE values x 3 maxYears with per-row distance monotonicity, 75 individuals x 106 option settings (Similarity, SurroundingSimilarity, WeightedSimilarity), lists of 0..3 individuals x 3 MinimumSimilarity, 21 family graphs; every score in [0,1] exactly, operand-order independent within 1e-12, 1 on identity, 0 beyond maxYears, 0.5 where the documentation promises neutrality.",
@@ -86,6 +86,30 @@ CHECKS = {
    note="Trusts ref/warn.go + ref/decode.go + ref/cal.go. Thresholds are approached no closer than 30 days (365.25-day-year approximation). Typed warning structs are the observation point for the people involved."),
 }
 
+# what the seeding rounds added to each check (appended to the text above; details in DESIGN.md Appendix D)
+ADDED = {
+ "C01": "Added: the empty forest and single nodes of every kind x BOM; every printable ASCII character (and a 2-byte rune) single and doubled at every position of values, tags and pointers; node-identity oracle (every position its own object).",
+ "C02": "Added: single paths to depth 40 with a line at every level; every specialised line twice in one record with different substructure; lower/mixed-case tags and percent values among the 42 line deviations; node-identity oracle.",
+ "C03": "Added: level numbers at every machine-integer boundary (2^8..2^64, zero padded); a case that does not return is reported by the runner's watchdog (hang).",
+ "C04": "Added: every upper/lower-case pattern of every documented word in 2-5 sentence frames.",
+ "C05": "Added: ranges built by the public constructor from plain Date literals and with swapped range-end flags.",
+ "C06": "Added: February 1900 at every granularity (thorough: ten 64-day windows).",
+ "C07": "Added: every multiset of 2-3 siblings from a pool of 50 subtrees built around each specialised Equals rule (gen.EqualityClassPool) x every re-ordering at sibling level and one level down, with both arguments compared before/after every DeepEqual; nodes built through the API with padded values through every copy path.",
+ "C08": "Added: the equality-class pool (re-orderings and pairs, with operation orders).",
+ "C09": "Added: the equality-class pool (merges and self-merges); merge functions that decline with a typed nil.",
+ "C10": "Now 7 base graphs (incl. exact dates throughout, unique identifiers) with HEAD/TRLR, 16 edits (incl. a family event with spouse ages), a record carrying two people's identifiers; the query function used a second time after an in-place edit must account for the added individual.",
+ "C11": "Now 16 scenarios (incl. lists that are only a part of their documents). Added: the real `gedcom diff` binary on 3 document pairs x 4x3x3 threshold flags x jobs {1,2}, pairs parsed from the report's index table and compared with the library call under the options the flags document.",
+ "C12": "Added: 105-individual universe (two and three names in both orders); an operand compared with itself must score what it scores against an equal separately decoded copy; weights that differ from each other in the weighted surrounding similarity.",
+ "C13": "Now 5 initial documents (one with a living spouse), 46 operation instances (incl. SetNodes on a childless node, a second record with an existing pointer, publishing in all three visibilities, filter queries); live views are read before anything else is decoded; deep equality with the freshly decoded twin is one of the views.",
+ "C14": "Now 33 faults (incl. empty DATE, a husband without dates, a cycle that is the only child, a second family with a dangling partner); files that need decoder options x the diff command's decoder flags.",
+ "C15": "Added: variables in every syntactic position (function arguments, conditions incl. both sides of a comparison, object values) in pipelines of <=2 steps with one or two definitions; a document whose lists consist of nil elements only; hangs are reported by the watchdog.",
+ "C16": "Added: comparison table (46 constants incl. signed, leading dot/zero/plus, exponent, padded x 36 operand values x 6 operators); variables evaluated per item (Only conditions, object fields) and one parsed engine evaluated on every ordered pair/triple of documents.",
+ "C17": "Now 16 roles (incl. living namesake sorting first, wife of a dead man with a dead child), marriages with dates; completeness differential: what a dead person's page and the individual lists say with show they also say with hide/placeholder.",
+ "C18": "Added: an individual without NAME (pointer tainted); token shapes with a leading special character and with literal entities after the token; map-valued query results.",
+ "C19": "Added: hostile places and names (document D5), first/last index letters and same-year events at one place (D6); every document re-published by the real DirectoryFileWriter over a directory that already holds another site.",
+ "C20": "Added: unparsable birth dates of children.",
+}
+
 NOT_APPLICABLE = []
 
 def main():
@@ -102,7 +126,7 @@ def main():
             "evidence_file": f"/verif/evidence/{pid}.json",
             "replay_cmd_template": f"bin/vcheck replay {pid} {{path}}",
             "engine": c["engine"],
-            "level_claimed": {"category": c["category"], "text": c["text"], "design_ref": c["design_ref"]},
+            "level_claimed": {"category": c["category"], "text": c["text"] + (" " + ADDED[pid] if pid in ADDED else ""), "design_ref": c["design_ref"]},
             "level_note": c["note"],
             "technique": c["technique"],
         })
